@@ -15,6 +15,7 @@ class Machine:
     assumptions = []
     has_clock = False
     run_wall_cap = 30.0
+    minimise_by = "sig"
 
     def lru_configs(self, tier):
         return ["default"]
